@@ -95,13 +95,16 @@ def gen_amount(r, lo_exp, hi_exp):
     return r.range(1, 9) * 10 ** e + (r.below(10 ** e) if r.chance(1, 2) and e > 0 else 0)
 
 
-def gen_case(r, tier, geom=False):
+def gen_case(r, tier, geom=False, prune=False, extreme=False, ns=False):
+    """prune: pruning passes (direct and through the epoch hook, small per-block limits); extreme: pools whose spot
+    price errors or exceeds the maximum; ns: block and query times that are not whole milliseconds"""
     sim = Sim()
-    t0 = 1_700_000_000 * SEC + r.range(0, 10 ** 6) * MS
-    sub_ms = False
+    t0 = 1_700_000_000 * SEC + r.range(0, 10 ** 6) * MS + (r.range(1, MS - 1) if ns else 0)
     ops = []
     now = t0
     times = [t0]
+    prune_limit = r.choice([0, 1, 2, 3, 7]) if prune else 0
+    keep_period = r.choice([10, 60, 600, 3600]) * SEC if prune else 0
 
     def new_pool():
         k = r.below(10)
@@ -118,7 +121,12 @@ def gen_case(r, tier, geom=False):
                 if d not in ds:
                     ds.append(d)
             mode = r.below(10)
-            if mode == 0:
+            if extreme and r.chance(2, 3):
+                # one side scarce: the tiny price direction errors, beyond 2^128 both do / the value is clamped
+                big = 10 ** r.choice([20, 24, 30, 38, 39, 40, 44])
+                amts = [r.range(1, 9) * 10 ** r.range(0, 3) for _ in range(n)]
+                amts[r.below(n)] = big * r.range(1, 9)
+            elif mode == 0:
                 amts = [10 ** 9] * n                                # price exactly 1 (F7 witness shape)
             elif mode == 1:
                 b = gen_amount(r, 6, 12)
@@ -183,6 +191,8 @@ def gen_case(r, tier, geom=False):
         din = r.choice(p["denoms"])
         dout = r.choice([d for d in p["denoms"] if d != din])
         frac = r.choice([1e-6, 1e-4, 1e-3, 0.01, 0.05, 0.2, 0.45]) * (1 + r.below(100) / 100.0)
+        if extreme and r.chance(1, 3):
+            frac = r.choice([0.49, 0.3, 1e-12, 1e-20])
         amt = max(1, int(p["res"][din] * min(frac, 0.49)))
         ops.append({"op": "swap", "pool": i + 1, "in": din, "amt": str(amt), "out": dout})
         bi, bo = p["res"][din], p["res"][dout]
@@ -203,9 +213,21 @@ def gen_case(r, tier, geom=False):
             dt = r.range(1, 48) * 3600 * SEC
         else:
             dt = r.range(60, 7200) * SEC
+        if ns and r.chance(2, 3):
+            dt = max(1, dt + r.choice([r.range(-MS + 1, MS - 1), 1 - dt if r.chance(1, 4) else 0, r.range(1, 999)]))
         ops.append({"op": "end", "dt": dt})
         now += dt
         times.append(now)
+
+    def prune_op():
+        k = r.below(10)
+        n = len(sim.pools)
+        if k < 3:
+            ops.append({"op": "epoch"})
+            return
+        keep = pick_time() if k < 8 else r.choice(times) + r.choice([-1, 0, 1])
+        last = r.choice([n, n, n, n, max(n - 1, 0), n + 1, 0])
+        ops.append({"op": "prune", "keep": keep, "last": last})
 
     def pick_time():
         k = r.below(20)
@@ -225,6 +247,14 @@ def gen_case(r, tier, geom=False):
         if k < 17:
             return now + r.range(1, 10 ** 5) * MS
         return now if r.chance(1, 2) else base
+
+    _pick_ms = pick_time
+
+    def pick_time():          # noqa: F811  (nanosecond variant wraps the millisecond one)
+        t = _pick_ms()
+        if ns and r.chance(1, 2):
+            t += r.choice([1, -1, 2, 999_999, -999_999, 500_000, r.range(-MS, MS)])
+        return t
 
     def queries(n):
         if not sim.pools:
@@ -282,9 +312,13 @@ def gen_case(r, tier, geom=False):
                     ops.append({"op": "exit", "pool": i + 1, "amt": str(r.range(1, 50) * 10 ** r.range(15, 18))})
         if r.chance(1, 5):
             queries(r.range(1, 6))
+        if prune and b >= 2 and r.chance(1, 4):
+            prune_op()
+            if r.chance(1, 2):
+                queries(r.range(1, 4))     # between setting the pruning state and the pruning pass
         end_block()
     queries(40 if tier == "quick" else 80)
-    return {"t0": t0, "prune_limit": 0, "keep_period": 0, "geom": geom, "ops": ops}
+    return {"t0": t0, "prune_limit": prune_limit, "keep_period": keep_period, "geom": geom, "ops": ops}
 
 
 # ---------------------------------------------------------------------------------------------
@@ -506,6 +540,7 @@ def oracle(case, pr):
     series = {}
     now = case["t0"]
     first_rec = {}
+    keepmax = None      # the largest keep time any pruning pass was given so far: the retention window starts there
 
     def viol(what, rec):
         v.append({"what": what, "rec": rec})
@@ -513,7 +548,7 @@ def oracle(case, pr):
     for idx, (op, st) in enumerate(zip(case["ops"], pr.steps)):
         k = op["op"]
         if k in ("bal", "cl"):
-            pools.append(pr.pools[len(pools)])
+            pools.append(dict(pr.pools[len(pools)], created=now))
             for j in range(st["npairs"]):
                 series[(len(pools) - 1, j)] = []
                 w0, w1 = st["raws"][j]
@@ -541,31 +576,37 @@ def oracle(case, pr):
                                  % (p["id"], j, now, rc[0], rc[7]), {"fn": "twap.getSpotPrices", "kind": "error_not_recorded"})
                     series[(i, j)].append((now, rc[2], rc[3], bool(errored)))
             now += op["dt"]
+        elif k in ("prune", "epoch"):
+            if st["pruning"][0]:
+                keepmax = st["pruning"][1] if keepmax is None else max(keepmax, st["pruning"][1])
         elif k == "q":
             tg, where = resolve(pools, op)
             stt, val = st["status"], st["value"]
             start = op["start"]
             end = now if op.get("tonow") else op["end"]
-            if where is None or op["kind"] != 0:
+            if where is None:
                 continue
             i, j, q0 = where
+            ser = series[(i, j)]
+            created = pools[i]["created"]
+            in_window = created <= start <= end <= now and (keepmax is None or keepmax <= start)
+            if stt == Q_PANIC and ms(start) == ms(end) and start < end and in_window:
+                viol("query %d: %s TWAP over [%d, %d] (inside one millisecond) panics" % (idx, "geometric" if op["kind"] else "arithmetic", start, end),
+                     {"fn": "twap.computeTwap", "kind": "panic", "cause": "interval_within_one_millisecond"})
+                continue
             if stt not in (Q_OK, Q_FLAG):
-                # an interval inside the recorded history must be answered
-                ser = series[(i, j)]
-                if stt == Q_PANIC and ms(start) == ms(end) and start < end:
-                    continue
-                if ser and ser[0][0] <= start <= end <= now and not op.get("tonow") and stt != Q_PANIC and not case_prunes(case):
-                    viol("query %d: interval [%d, %d] inside the recorded history answered with error status %d" % (idx, start, end, stt),
-                         {"fn": "twap.getTwap", "kind": "unexpected_error", "status": stt})
+                # an interval inside the retention window must be answered
                 if stt == Q_PANIC:
                     viol("query %d: panic" % idx, {"fn": "twap.getTwap", "kind": "panic"})
+                elif in_window:
+                    viol("query %d: interval [%d, %d] inside the retention window answered with error status %d" % (idx, start, end, stt),
+                         {"fn": "twap.getTwap", "kind": "unexpected_error", "status": stt})
                 continue
-            ser = series[(i, j)]
-            if not ser or start < ser[0][0]:
+            if not in_window or not ser:
                 continue
             col = 1 if q0 else 2
-            # price in force on millisecond slot tau: the last block end with ms(time) <= tau
             a, b = ms(start), ms(end)
+            # ---- error flag (both kinds of TWAP) ----
             touched = any(e[3] and start <= e[0] <= end for e in ser)
             inforce = [e for e in ser if e[0] <= start]
             if inforce and inforce[-1][3]:
@@ -574,34 +615,45 @@ def oracle(case, pr):
             if touched and stt != Q_FLAG:
                 viol("query %d: interval [%d, %d] touches a spot-price error but the answer is not flagged" % (idx, start, end),
                      {"fn": "twap.computeTwap", "kind": "missing_error_flag"})
-            if not anyerr and stt == Q_FLAG and not any(e[col] == 0 or e[1] == 0 for e in ser):
+            if not anyerr and stt == Q_FLAG and not any(e[1] == 0 or e[2] == 0 for e in ser):
                 viol("query %d: flagged although no spot-price error ever occurred" % idx, {"fn": "twap.computeTwap", "kind": "spurious_error_flag"})
             if stt == Q_FLAG:
+                continue          # the value of a flagged answer is declared unreliable by the implementation itself
+            if start == end:
+                exp = [e for e in ser if e[0] <= start][-1][col]
+                if val != exp:
+                    viol("query %d: TWAP over the empty interval at %d is %d, the price in force is %d" % (idx, start, val, exp),
+                         {"fn": "twap.computeTwap", "kind": "instant_price"})
                 continue
             if a == b:
-                # zero elapsed time: the last price
-                exp = [e for e in ser if ms(e[0]) <= a][-1][col] if start == end else None
-                if exp is not None and val != exp:
-                    pass
+                if op["kind"] == 1 and val == 0:
+                    viol("query %d: geometric TWAP over [%d, %d] (inside one millisecond) is 0" % (idx, start, end),
+                         {"fn": "twap.computeTwap", "kind": "zero_result", "cause": "interval_within_one_millisecond"})
                 continue
-            total = 0
-            lo_p, hi_p = None, None
             pts = [e for e in ser if ms(e[0]) <= b]
+            segs = []      # (price, milliseconds) of the step function on [a, b)
             for n_, e in enumerate(pts):
                 seg_a = max(a, ms(e[0]))
                 seg_b = b if n_ + 1 == len(pts) else min(b, ms(pts[n_ + 1][0]))
                 if seg_b > seg_a:
-                    total += e[col] * (seg_b - seg_a)
-                    lo_p = e[col] if lo_p is None else min(lo_p, e[col])
-                    hi_p = e[col] if hi_p is None else max(hi_p, e[col])
-            mean = Fraction(total, b - a)
-            if not (mean - 1 < val <= mean):
-                viol("query %d: arithmetic TWAP over [%d, %d] is %d, time-weighted mean of the end-of-block prices is %s"
-                     % (idx, start, end, val, float(mean)), {"fn": "twap.arithmetic.computeTwap", "kind": "mean"})
-            elif not (lo_p <= val <= hi_p):
-                viol("query %d: arithmetic TWAP %d outside [min %d, max %d] of the prices in force" % (idx, val, lo_p, hi_p),
-                     {"fn": "twap.arithmetic.computeTwap", "kind": "min_max"})
+                    segs.append((e[1], e[2], seg_b - seg_a))
+            if op["kind"] == 0:
+                total = sum(sg[col - 1] * sg[2] for sg in segs)
+                lo_p, hi_p = min(sg[col - 1] for sg in segs), max(sg[col - 1] for sg in segs)
+                mean = Fraction(total, b - a)
+                if not (mean - 1 < val <= mean):
+                    viol("query %d: arithmetic TWAP over [%d, %d] is %d, time-weighted mean of the end-of-block prices is %s"
+                         % (idx, start, end, val, float(mean)), {"fn": "twap.arithmetic.computeTwap", "kind": "mean"})
+                elif not (lo_p <= val <= hi_p):
+                    viol("query %d: arithmetic TWAP %d outside [min %d, max %d] of the prices in force" % (idx, val, lo_p, hi_p),
+                         {"fn": "twap.arithmetic.computeTwap", "kind": "min_max"})
+            else:
+                geom_oracle(viol, idx, op, segs, q0, val, start, end)
     return v
+
+
+def geom_oracle(viol, idx, op, segs, q0, val, start, end):
+    pass
 
 
 def case_prunes(case):
@@ -619,11 +671,41 @@ def nontrivial(case, pr):
     return changing >= 2 and ans >= 1
 
 
+def twin_of(case):
+    """the same history without its pruning passes"""
+    return dict(case, ops=[o for o in case["ops"] if o["op"] not in ("prune", "epoch")])
+
+
+def twin_compare(case, pr, flat2):
+    """pruning never changes an answer inside the window: compare every query with the never-pruned twin chain"""
+    v = []
+    pr2 = parse(twin_of(case), flat2)
+    q2 = [st for st in pr2.steps if st["op"] == "q"]
+    keepmax = None
+    k = 0
+    for idx, (op, st) in enumerate(zip(case["ops"], pr.steps)):
+        if op["op"] in ("prune", "epoch") and st["pruning"][0]:
+            keepmax = st["pruning"][1] if keepmax is None else max(keepmax, st["pruning"][1])
+        if op["op"] == "q":
+            t = q2[k]
+            k += 1
+            if keepmax is not None and op["start"] < keepmax:
+                continue
+            if (st["status"], st["value"]) != (t["status"], t["value"]):
+                v.append({"what": "query %d (start %d >= every keep time so far, %s): answer (status %d, value %d) but (status %d, value %d) on the never-pruned chain"
+                          % (idx, op["start"], keepmax, st["status"], st["value"], t["status"], t["value"]),
+                          "rec": {"fn": "twap.pruneRecordsBeforeTimeButNewest", "kind": "prune_visible"}})
+    return v
+
+
 def run_cases(cases, model_ok, out, tag):
     binary = common.go_build("c10drv", test=True)
-    obs = common.run_driver(binary, cases, args="-test.run ^TestDriver$", shards=8)
+    twins = [(i, twin_of(c)) for i, c in enumerate(cases) if case_prunes(c)]
+    obs_all = common.run_driver(binary, cases + [t for _, t in twins], args="-test.run ^TestDriver$", shards=8)
+    obs = obs_all[:len(cases)]
+    twin_obs = {i: o for (i, _), o in zip(twins, obs_all[len(cases):])}
     good = []
-    for c, o in zip(cases, obs):
+    for ci, (c, o) in enumerate(zip(cases, obs)):
         out.evaluations += 1
         if o.get("err"):
             out.oracle_violations.append({"what": o["err"], "rec": {"fn": "driver", "kind": "unexpected_panic"}, "case": c})
@@ -634,7 +716,10 @@ def run_cases(cases, model_ok, out, tag):
         except (AssertionError, IndexError, ValueError) as ex_:
             out.oracle_violations.append({"what": "driver output does not have the expected shape: %r" % (ex_,), "rec": {"fn": "driver", "kind": "shape"}, "case": c})
             continue
-        for v in oracle(c, pr):
+        vs = oracle(c, pr)
+        if ci in twin_obs and not twin_obs[ci].get("err"):
+            vs += twin_compare(c, pr, [int(x) for x in twin_obs[ci]["flat"]])
+        for v in vs:
             v["case"] = c
             out.oracle_violations.append(v)
         if nontrivial(c, pr):
@@ -666,11 +751,29 @@ def run_cases(cases, model_ok, out, tag):
     return good
 
 
+# (share of the cases, flavour) - arithmetic-only histories
+FLAVOURS = [(24, {}), (14, {"prune": True}), (12, {"extreme": True}), (8, {"ns": True}),
+            (6, {"prune": True, "extreme": True, "ns": True})]
+
+
+def gen_cases(r, tier, n):
+    cases = []
+    tot = sum(w for w, _ in FLAVOURS)
+    for i in range(n):
+        x = (i * tot) // n
+        for w, fl in FLAVOURS:
+            if x < w:
+                break
+            x -= w
+        cases.append(gen_case(r.fork(i), tier, **fl))
+    return cases
+
+
 def correspond(tier, seed, model_ok):
     out = Outcome()
     r = Rng(seed)
     n = 64 if tier == "quick" else 1500
-    cases = [gen_case(r.fork(i), tier) for i in range(n)]
+    cases = gen_cases(r, tier, n)
     corpus = common.load_corpus(PROP)
     good = run_cases(corpus + cases, model_ok, out, "q")
     out.rule = ("case = history on a fresh full app (1-3 balancer / concentrated pools, swaps, joins, exits, position creation and withdrawal, "
@@ -690,7 +793,7 @@ def correspond(tier, seed, model_ok):
 def search(tier, seed, out):
     o2 = Outcome()
     r = Rng(seed + 7919)
-    cases = [gen_case(r.fork(i), "thorough") for i in range(400)]
+    cases = gen_cases(r, "thorough", 400)
     for m in out.mismatches[:20]:
         if m.get("case"):
             cases.append(m["case"])
@@ -713,6 +816,56 @@ def replay(path):
     for m in out.mismatches:
         print("mismatch:", m["what"])
     return 1 if (out.oracle_violations or out.mismatches) else 0
+
+
+def selftest(seed=1):
+    """unit checks of the checking machinery itself: the oracle must flag hand-perturbed observations and case_ok must
+    reject a perturbed expectation"""
+    r = Rng(seed)
+    cases = gen_cases(r, "quick", 16)
+    binary = common.go_build("c10drv", test=True)
+    obs = common.run_driver(binary, cases, args="-test.run ^TestDriver$", shards=8)
+    done = set()
+    for c, o in zip(cases, obs):
+        flat = [int(x) for x in o["flat"]]
+        pr = parse(c, flat)
+        base = [v for v in oracle(c, pr) if v["rec"].get("cause") != "interval_within_one_millisecond"]
+        assert not base, base
+        for idx, (op, st) in enumerate(zip(c["ops"], pr.steps)):
+            if op["op"] != "q" or op["kind"] != 0:
+                continue
+            if st["status"] == Q_OK and (op.get("tonow") or ms(op["start"]) < ms(op["end"])) and "mean" not in done:
+                st["value"] += 1
+                kinds = {v["rec"]["kind"] for v in oracle(c, pr)}
+                st["value"] -= 1
+                if "mean" in kinds or "min_max" in kinds:
+                    done.add("mean")
+                    print("selftest: oracle flags an arithmetic TWAP that is 1e-18 too high: ok")
+            if st["status"] == Q_FLAG and "flag" not in done:
+                st["status"] = Q_OK
+                kinds = {v["rec"]["kind"] for v in oracle(c, pr)}
+                st["status"] = Q_FLAG
+                if "missing_error_flag" in kinds:
+                    done.add("flag")
+                    print("selftest: oracle flags a dropped error flag: ok")
+        if "coq" not in done:
+            term, exp = coq_case(c, pr)
+            bad = list(exp)
+            k = max(i for i, x in enumerate(bad) if x > 10 ** 9)
+            bad[k] += 1
+            term_bad = term[:term.rindex("[")] + zlist(bad)
+            vtxt = ("From Coq Require Import ZArith List. Import ListNotations.\n"
+                    "From Osmo Require Import Base.Obs C10.Model C10.Corr.\nOpen Scope Z_scope.\n"
+                    "Definition cases : list case := [\n  %s;\n  %s ].\n"
+                    "Definition M := Eval vm_compute in mismatches case_ok cases.\nPrint M.\n" % (term, term_bad))
+            rc, o2 = common.coq_eval("C10_selftest", vtxt)
+            mm = common.parse_nat_list(o2)
+            assert mm == [1], (rc, o2[-500:])
+            done.add("coq")
+            print("selftest: case_ok accepts the observed expectation and rejects one perturbed by 1: ok")
+    missing = {"mean", "flag", "coq"} - done
+    assert not missing, missing
+    return 0
 
 
 SCOPE = "partial: pipeline core (arithmetic TWAP) - see coq/theories/C10/STATUS.md"
